@@ -623,13 +623,25 @@ func (rp *verifC18Reporter) verifFlush(s *verifC18Seq, phase string, extra map[s
 	}
 }
 
-func (s *verifC18Seq) verifCountInto(rec *kit.Rec) {
-	rec.Count("steps_judged", len(s.trace))
-	rec.Count("cache_hits_judged", s.hits)
-	rec.Count("probes_judged", s.probes)
-	rec.Count("reprobes_of_known_address", s.reprobes)
-	rec.Count("hits_that_also_probed", s.hitWithProbe)
-	rec.Count("misses_whose_error_is_not_the_probes", s.errDiffers)
+// verifC18Tally accumulates what the histories of one job observed (the recorder is shared and locked).
+type verifC18Tally struct{ steps, hits, probes, reprobes, hwp, errd int }
+
+func (s *verifC18Seq) verifTallyInto(t *verifC18Tally) {
+	t.steps += len(s.trace)
+	t.hits += s.hits
+	t.probes += s.probes
+	t.reprobes += s.reprobes
+	t.hwp += s.hitWithProbe
+	t.errd += s.errDiffers
+}
+
+func (t *verifC18Tally) verifCountInto(rec *kit.Rec) {
+	rec.Count("steps_judged", t.steps)
+	rec.Count("cache_hits_judged", t.hits)
+	rec.Count("probes_judged", t.probes)
+	rec.Count("reprobes_of_known_address", t.reprobes)
+	rec.Count("hits_that_also_probed", t.hwp)
+	rec.Count("misses_whose_error_is_not_the_probes", t.errd)
 }
 
 // ---- phase 1: every history up to length L ----------------------------------------------------------
@@ -825,6 +837,7 @@ func TestVerifC18Outcomes(t *testing.T) {
 		}
 		shapes := map[key]struct{}{}
 		evals := 0
+		var tally verifC18Tally
 		for k1 := 0; k1 < nk; k1++ {
 			for k2 := 0; k2 < nk; k2++ {
 				for L := 1; L <= maxLen; L++ {
@@ -858,7 +871,7 @@ func TestVerifC18Outcomes(t *testing.T) {
 						}
 						rp.verifFlush(s, "outcomes", map[string]interface{}{"first_probe_outcome": verifC18Outcomes[k1].name, "later_probe_outcomes": verifC18Outcomes[k2].name})
 						evals++
-						s.verifCountInto(rec)
+						s.verifTallyInto(&tally)
 						if code, nt := s.verifShape(); nt {
 							shapes[key{verifC18Outcomes[k1].live, verifC18Outcomes[k2].live, code}] = struct{}{}
 						}
@@ -871,6 +884,7 @@ func TestVerifC18Outcomes(t *testing.T) {
 			}
 		}
 		rec.Count("evaluations", evals)
+		tally.verifCountInto(rec)
 		rec.Count("configs", 1)
 		for k := range shapes {
 			rec.Distinct("nontrivial", idx, k.l1, k.l2, k.shape)
@@ -989,7 +1003,9 @@ func TestVerifC18Boundary(t *testing.T) {
 				earlyByFrac[a.desc] += early
 				earlyMu.Unlock()
 			}
-			s.verifCountInto(rec)
+			var tally verifC18Tally
+			s.verifTallyInto(&tally)
+			tally.verifCountInto(rec)
 			if hitsAt > 0 || s.reprobes > 0 {
 				rec.Distinct("nontrivial", cfg.String(), a.d)
 			}
@@ -1093,7 +1109,9 @@ func TestVerifC18Random(t *testing.T) {
 		}
 		rp.verifFlush(s, "random", map[string]interface{}{"index": i, "history_seed": hseed})
 		rec.Count("evaluations", 1)
-		s.verifCountInto(rec)
+		var tally verifC18Tally
+		s.verifTallyInto(&tally)
+		tally.verifCountInto(rec)
 		if s.hits > 0 && s.reprobes > 0 {
 			rec.Distinct("nontrivial", cfg.String(), hseed)
 		}
